@@ -900,6 +900,8 @@ def check(model, rep, tier):
   rep.depends('C13', ['CALL-PARTIAL'],
               'a partial of a substituted builtin is unwrapped by the call wrapper '
               'before the builtin branch sees it')
+  rep.depends('C13', ['CALL-FAITHFUL'],
+              'the arguments of a builtin call reach its substitute through the tuple / dict built by call_trees and forwarded by converted_call')
   rep.depends('C13', ['CALL-POLICY'],
               'the context-sensitive builtins are served by the builtin branch of '
               'converted_call: every earlier exit of the policy chain runs them in '
